@@ -255,6 +255,17 @@ Definition E_invalid_frame : N := 34.   (* core.ErrInvalidFrame from the read lo
 
 Definition outcome := (bytes * N)%type.   (* (payload or remote message, error class; 0 = nil) *)
 
+(* [rep w n] = the word w repeated n times: how the harness prints large stamped
+   payloads (Coq's string-literal parser is the expensive part of a case file) *)
+Definition rep (w : bytes) (n : N) : bytes := concat (repeat w (N.to_nat n)).
+
+(* OWNERSHIP CLAUSE of the acceptor (not a theorem of the table model): what Call
+   returns is the caller's private copy.  The harness keeps the returned slice and
+   reads its bytes only when the case ends, after all later traffic (further large
+   frames on the same process-wide slab pool); the observation compared with the
+   allowed outcomes below is that late reading.  conn.handleRPCResponse satisfies
+   it by copying the payload out of the frame body before Complete. *)
+
 Inductive cop :=
 | CStart (k : N) (payload : bytes)           (* go Call(ctx_k, payload); peer reads the request frame *)
 | CStartCanceled (k : N) (payload : bytes)   (* Call with an already cancelled context *)
